@@ -80,6 +80,15 @@ fn main() {
         vec![(0, 1e-10), (1, 0.5)],
         vec![(0, t(-24)), (1, t(-24))],
         vec![(e, 0.6), (s, 0.4)],
+        // probabilities below the resolution of the draw (2^-23)
+        vec![(0, t(-24))],
+        vec![(1, t(-30))],
+        vec![(0, t(-24)), (1, t(-24)), (2, 0.5)],
+        vec![(0, t(-25)), (1, t(-25)), (2, t(-24)), (3, 0.5)],
+        vec![(0, t(-24)), (1, t(-24)), (2, t(-24)), (3, t(-24)), (e, t(-24)), (s, t(-24))],
+        vec![(s, 3.0 * t(-25)), (0, 0.25)],
+        vec![(0, 0.5), (1, t(-24)), (2, t(-24))],
+        vec![(e, t(-24)), (0, 1.0 - t(-23))],
     ];
     let mut g = grng(seed);
     for i in 0..extra {
@@ -91,6 +100,10 @@ fn main() {
             let p: f32 = if i % 2 == 0 {
                 // dyadic with up to 23 fractional bits
                 (g.gen_range(1..=(R >> (j + 1))) as f32) / R as f32
+            } else if i % 4 == 1 {
+                // multiples of 2^-26: finer than the draw, small and large
+                let num = if g.gen_bool(0.5) { g.gen_range(1..=24u32) } else { g.gen_range(1..=(1u32 << (25 - j))) };
+                (num as f32) / (1u32 << 26) as f32
             } else {
                 g.gen::<f32>() * left * 0.9
             };
@@ -148,11 +161,27 @@ fn main() {
         let other = st.sample_state(Event::TunnelRecv, &mut rng2);
         let scaled: Vec<f64> = v.iter().map(|x| x.1 as f64 * R as f64).collect();
         let dyadic = scaled.iter().all(|x| x.fract() == 0.0);
+        // exact: every probability a multiple of 2^-30 and every f32 partial sum exact
+        let unit = (1u64 << 30) as f64;
+        let mut exact = v.iter().all(|x| (x.1 as f64 * unit).fract() == 0.0);
+        let mut c30: Vec<i64> = Vec::new();
+        let (mut sum32, mut sum64) = (0.0f32, 0.0f64);
+        for x in v.iter() {
+            sum32 += x.1;
+            sum64 += x.1 as f64;
+            if sum32 as f64 != sum64 {
+                exact = false;
+            }
+            c30.push((sum64 * unit) as i64);
+        }
+        if !exact {
+            c30 = vec![0; n];
+        }
         writeln!(
             f,
             "{}",
             json!({
-                "k": "vec", "id": id, "n": n, "R": R, "dyadic": dyadic,
+                "k": "vec", "id": id, "n": n, "R": R, "dyadic": dyadic, "exact": exact, "c": c30,
                 "certain": n == 1 && v[0].1 == 1.0,
                 "p": v.iter().map(|x| format!("{:e}", x.1)).collect::<Vec<_>>(),
                 "targets": v.iter().map(|x| verif_harness::model::target_code(x.0)).collect::<Vec<_>>(),
